@@ -5,6 +5,7 @@ import (
 	"encoding/hex"
 	"fmt"
 	"strings"
+	"unicode/utf8"
 
 	protocol "github.com/hujm2023/go-sms-protocol"
 	"github.com/hujm2023/go-sms-protocol/cmpp"
@@ -118,8 +119,9 @@ func genRcptValue(c *core.Chooser, key string) string {
 				v += string(alpha[c.Intn(len(alpha))])
 			}
 		}
-	default: // colons and look-alikes of the keys in another case
-		looks := []string{"ID:", "SUB:", "Id:", "STAT:", "ERR:", "TEXT:", "DLVRD:", ":", "::", "a:b", "Date:", "date:", "sTat:"}
+	default: // colons, look-alikes of the keys in another case, and words that CONTAIN a key's name (never a key token)
+		looks := []string{"ID:", "SUB:", "Id:", "STAT:", "ERR:", "TEXT:", "DLVRD:", ":", "::", "a:b", "Date:", "date:", "sTat:",
+			"subway", "submit", "sub", "paid", "valid", "id", "berry", "cherry", "err", "status", "restate", "stat", "context", "text", "dlvrd", "done", "date", "msgid", "userid"}
 		for len(v) < n {
 			if c.Bool() {
 				v += looks[c.Intn(len(looks))]
@@ -172,10 +174,38 @@ func runReceipts(r *core.Run) {
 				}
 			}
 		}
+		// the fixed layout of the specification: every key present, every value exactly as wide as its field - in the
+		// canonical order, or with ONE pair of keys swapped (a parser that slices by offset would not notice two keys
+		// of equal length trading places)
+		fixedLayout := c.Prob(1, 6)
+		if fixedLayout {
+			order = append(order[:0], rcptKeys...)
+			noncanon = false
+			if c.Prob(2, 3) {
+				a, b := 1+c.Intn(len(order)-1), 1+c.Intn(len(order)-1)
+				if c.Bool() {
+					pairs := [][2]string{{"sub", "err"}, {"stat", "text"}, {"submit date", "done date"}, {"sub", "dlvrd"}}
+					pr := pairs[c.Intn(len(pairs))]
+					for i, k := range order {
+						if k == pr[0] {
+							a = i
+						}
+						if k == pr[1] {
+							b = i
+						}
+					}
+				}
+				if a != b {
+					order[a], order[b] = order[b], order[a]
+					noncanon = true
+				}
+			}
+			r.Probe("fixed_layout_receipt")
+		}
 		type kv struct{ key, spell, val string }
 		var kvs []kv
 		for _, k := range order {
-			if k != "id" && c.Prob(1, 5) {
+			if k != "id" && !fixedLayout && c.Prob(1, 5) {
 				noncanon = true
 				continue // absent key
 			}
@@ -224,7 +254,18 @@ func runReceipts(r *core.Run) {
 					spell = rcptBackup[k]
 					noncanon = true
 				}
-				kvs = append(kvs, kv{k, spell, genRcptValue(c, k)})
+				v := genRcptValue(c, k)
+				if fixedLayout {
+					w := rcptWidth[k]
+					for len(v) < w {
+						v += string("0123456789"[len(v)%10])
+					}
+					v = v[:w]
+					if !utf8.ValidString(v) || strings.ContainsAny(v, " ") {
+						v = strings.Repeat("7", w)
+					}
+				}
+				kvs = append(kvs, kv{k, spell, v})
 			}
 		}
 		// the receipt must fit the one-octet length field of the deliver PDU: shrink over-long values
